@@ -19,6 +19,9 @@ def run(prop):
     if prop == "C17":
         import cases_family
         return cases_family.c17()
+    if prop == "C20":
+        import cases_family
+        return cases_family.c20()
     if prop == "C18":
         import cases_family
         return cases_family.c18()
